@@ -573,3 +573,70 @@ def tableclaim_rule(ctx, prop="C01"):
             ctx.violation(rid, label, fi.file, fi.line, "object %s with %s already claimed, table occurrence %s: the table counts %r matching pair(s) and the claimed "
                           "keys become %r; a pair belongs to one member only, so the count must be %d and the claimed keys %r"
                           % (dict(pairs), claimed or "nothing", vt.occ_name(occ), counts[0], keys, want_count, sorted(want_keys)))
+
+
+def choicerollback_rule(ctx, prop="C01"):
+    import copy
+    rid = "%s.choicerollback" % prop
+    ctx.rule(rid, "JSON group choices in a map: an alternative that claims a key and then fails leaves nothing behind — the next alternative "
+                  "(visit_group over `//`, and visit_group_rule / visit_type_groupname_entry over `//=` alternatives followed by the base "
+                  "definition) starts with the claimed keys it would have had as the first one; RFC 8610 Appendix A: a failed alternative "
+                  "consumes nothing, so `{ a: int, b: int // a: int, c: tstr }` accepts {\"a\": 1, \"c\": \"x\"} (abstract evaluation, the "
+                  "per-alternative visit scripted to claim `a` and fail)", floor=3)
+    f = ctx.facts
+    MutList = absint.MutList
+
+    def run(fn_name, env_extra, script_name, extra_scripts=None):
+        fi = vt.visitor_fn(f, "json", fn_name)
+        obj = vt.self_obj("json", ("enum", "Value::Object", [absint.OPAQUE]))
+        obj[2]["state"][2].update({"is_multi_group_choice": False, "is_ctrl_map_equality": False, "generic_rules": MutList(), "type_group_name_entry": ("None",),
+                                   "cddl": absint.OPAQUE})
+        obj[2].update({"validated_keys": ("None",), "errors": MutList()})
+        seen = []
+
+        def visit_alt(run_, node, recv, seen=seen):
+            vk = recv[2].get("validated_keys")
+            keys = [k[1] for k in vk[1]] if isinstance(vk, tuple) and vk[:1] == ("Some",) else []
+            seen.append(list(keys))
+            if len(seen) == 1:
+                recv[2]["validated_keys"] = ("Some", MutList([("str", k) for k in keys] + [("str", "a")]))
+                recv[2]["errors"].append(("str", "object missing key: b"))
+            return ("Ok", ("tuple", []))
+        scripts = {script_name: visit_alt}
+        scripts.update(extra_scripts or {})
+        env = {"self": obj}
+        env.update(env_extra)
+        r = vt.Run(f, "json", "default", {}, env, scripts=scripts)
+        base = r.on_call
+
+        def on_call(kind, name, node, args, recv, base=base):
+            if kind == "method" and name == "add_error" and isinstance(recv, tuple) and recv[:2] == ("enum", "Self"):
+                recv[2]["errors"].append(("str", "error"))
+                return ("tuple", [])
+            if kind == "fn" and name and name.split("::")[-1] == "group_choice_alternates_from_ident":
+                return MutList([("alt", 1)])
+            if kind == "fn" and name and name.split("::")[-1] == "walk_type_groupname_entry":
+                return visit_alt(None, None, args[0])
+            return base(kind, name, node, args, recv)
+        r.it.on_call = on_call
+        r.run(fi.node)
+        return fi, seen, obj
+    ident = ("enum", "Identifier", {"ident": ("str", "g"), "socket": ("None",)})
+    cases = [("visit_group // alternatives", "visit_group", {"g": ("enum", "Group", {"group_choices": MutList([("gc", 0), ("gc", 1)])})}, "visit_group_choice"),
+             ("visit_group_rule //= then base", "visit_group_rule", {"gr": ("enum", "GroupRule", {"name": ident, "generic_params": ("None",), "entry": ("base",)})}, "visit_group_entry"),
+             ("visit_type_groupname_entry //= then base", "visit_type_groupname_entry",
+              {"entry": ("enum", "TypeGroupnameEntry", {"name": ident, "generic_args": ("None",), "occur": ("None",)})}, "visit_group_entry")]
+    for label, fn_name, env_extra, script_name in cases:
+        try:
+            fi, seen, obj = run(fn_name, env_extra, script_name, {"rule_from_ident": lambda r, n, a: ("None",), "group_rule_from_ident": lambda r, n, a: ("None",)})
+        except absint.Unknown as e:
+            ctx.incomplete_msg(rid, "%s: %s" % (label, e))
+            continue
+        if len(seen) < 2:
+            ctx.incomplete_msg(rid, "%s: the second alternative was not reached (%d visit(s) observed)" % (label, len(seen)))
+            continue
+        ctx.site(rid, label, fi.file, fi.line, {"claimed_keys_seen_by_each_alternative": seen})
+        if seen[1] != seen[0]:
+            ctx.violation(rid, label, fi.file, fi.line, "json %s: the alternative tried after a failed one starts with the claimed keys %r (the first one started "
+                          "with %r): the key `a` claimed by the failed alternative is not available to it, so `{ a: int, b: int // a: int, c: tstr }` "
+                          "rejects {\"a\": 1, \"c\": \"x\"} with `object missing key: a`" % (label, seen[1], seen[0]))
